@@ -341,7 +341,8 @@ class NumEngine(_BoolTextMixin, LoadEngine, CastSqlEngine):
 # two-stage programs and joint evaluation
 # ----------------------------------------------------------------------------------------------------------------
 def split_program(prog: LoadProgram) -> Tuple[LoadProgram, LoadProgram]:
-    first = dataclasses.replace(prog, updates=[], temporal_cases=[], not_null={c: False for c in prog.not_null})
+    # the first stage is the INSERT expression alone: none of the later steps (LoadProgram.steps is what run_row executes)
+    first = dataclasses.replace(prog, updates=[], temporal_cases=[], steps=[], not_null={c: False for c in prog.not_null})
     ident = {c: exp.column(c, quoted=True) for c in prog.col_types}
     second = dataclasses.replace(prog, insert=ident, insert_where=None)
     return first, second
@@ -353,7 +354,10 @@ def second_stage_text(prog: LoadProgram, col: Optional[str] = None) -> str:
     return repr(([(c, prog.not_null.get(c)) for c in cols],
                  [(c, e.sql(dialect="duckdb"), w.sql(dialect="duckdb") if w is not None else None)
                   for c, e, w in prog.updates if col is None or c == col],
-                 [c.sql(dialect="duckdb") for c in prog.temporal_cases]))
+                 [c.sql(dialect="duckdb") for c in prog.temporal_cases],
+                 # ... and the ORDER in which the loader executed the steps
+                 [(s[0], s[1]) if s[0] == "update" else (s[0], len(s[1])) for s in prog.steps
+                  if col is None or s[0] != "update" or s[1] == col]))
 
 
 def _same_term(x: Any, y: Any) -> bool:
